@@ -38,6 +38,11 @@ func checkC08(c *Ctx) {
 	prog := c.Prog(load.AMD64)
 	c08Sign(c, prog)
 	c08Options(c, prog)
+	// "the byte encodings returned parse back to the same (r, s, v)": the signature parsers and builders (rules C12-1..4)
+	c12ASN1Signature(c, prog)
+	c12BytesToScalar(c, prog)
+	c12Compact(c, prog)
+	c12Builders(c, prog)
 	// C08-4: the self-check cannot change (r, s, v): verify writes none of its operands
 	c07ReadOnlyRule(c, prog, models.SececPkg+".verify", "C08-4")
 	c.R.Floor("C08-4", 2)
